@@ -29,8 +29,8 @@ META = {
             "(current/historical roots) = model proofs byte for byte (toy hash); honest and single-field-corrupted proofs through real and "
             "model verifiers (verdicts equal; accepted => claim true of the map); statedb and ChainWorker answers (by address, name, special "
             "accounts, variables, plain/compressed, every root; on a live StateDB with pending writes before Update, between Update and Commit "
-            "(C11:statedb-proof-between-update-and-commit, API level only) and after, root nil = explicit root; malformed storage keys of 0..64 bytes: never Inclusion=true, absence proofs verify; the panic on keys shorter "
-            "than the walk is C11:statedb-proof-malformed-key-panic / C11:chain-query-malformed-key-panic) verified like a light client by "
+            "(C11:statedb-proof-between-update-and-commit, API level only) and after, root nil = explicit root; malformed storage keys of 0..64 bytes: never Inclusion=true, absence proofs verify; a panic on keys shorter "
+            "than the walk was F37h, repaired by /repo 948a63b6, and is reported as a violation if it returns) verified like a light client by "
             "the real and the model verifiers.",
     "note": "Trusted: Coq kernel (vm_compute sample), extraction (ExtrOcamlBasic) + OCaml driver incl. its SHA-256 (test vector each run), Go "
             "toolchain, engines in pkg/trie, state/statedb and chain (overlay build with the VM stub, irrelevant here), generators. No axioms, no "
